@@ -30,8 +30,6 @@ theorem numChunks_pos (n c : Nat) (m : Option Nat) (hn : 0 < n) (hc : 0 < c)
   | none => simpa
   | some x => have := hm x rfl; simp; omega
 
-/-- records actually written: all of them, or the first `m` chunks -/
-def totalWritten (n c : Nat) (m : Option Nat) : Nat := min (numChunks n c m * c) n
 
 theorem genPartitions_length (n c p : Nat) (m : Option Nat) :
     (genPartitions n c p m).length = min p (numChunks n c m) := by
